@@ -127,6 +127,11 @@ def local_expr(F, B, l, depth):
         t = d[2]
         c = callee_of(t)
         args = [expr(F, B, a, depth + 1) for a in t["args"]]
+        if t.get("indirect") and t.get("func"):
+            # a call through a function pointer: `f(x)` is `call_once(f, (x,))` - resolved like any other callable value when
+            # the pointer is visibly a closure / function of this crate (after the helper taking it was inlined)
+            fe = expr(F, B, t["func"], depth + 1)
+            return ("call", CALL_TRAIT_FNS[0], "call_once", (fe, ("agg", "tuple", None, None, tuple(args), (), None)), (), d[1], (), ())
         if c in IDENTITY_CALLS and args:
             return args[0]
         r = t.get("resolved")
